@@ -9,6 +9,7 @@ import CV.Inline
 import CV.Opt
 import CV.Gen.Tables
 import CV.Cpp
+import CV.Lit
 namespace CV
 
 structure LoadedProg where
@@ -229,6 +230,11 @@ def handle (st : DState) (line : String) : DState × String :=
               hexStr e.file ++ " " ++ toString e.line ++ " " ++
               (match e.inc with | some (f, l) => hexStr f ++ " " ++ toString l | none => "- -") ++ " " ++ hexStr e.msg)
        | .diverge => (st, "diverge"))
+  -- lit <bodyhex>... : bytes stored for the concatenation of these literal bodies
+  | "lit" :: bodies =>
+    match bodies.mapM unhexStr with
+    | some bs => (st, "ok " ++ " ".intercalate ((Lit.stored (bs.map String.toList)).map toString))
+    | none => (st, "badreq")
   -- branch <line tokens>
   | "branch" :: toks =>
     match codeOfTokens toks with
